@@ -329,12 +329,28 @@ pub fn classify_exh(exprs: &[Expr], pat: &Pat, p: &str, d: &str, property: &str)
     // Predicted: the matched path needs a skipped repetition, i.e. the same pattern with every
     // zero lower bound raised to one does not match it.
     if crate::findings::is_open("F-EXH-OPTIONAL", property) && exprs.iter().any(has_optional_rep) {
+        // judged per alternative (member of a combinator, branch of a top-level alternation —
+        // which is what a negation partitions by; a plain pattern is its own only alternative):
+        // the alternative matches p only with a repetition skipped, and raised it reports Always
+        for alt in exprs.iter().flat_map(|e| crate::props::stacks::negation_alternatives(e)) {
+            if !has_optional_rep(&alt) {
+                continue;
+            }
+            let (g, r) = match (build(&render_text(&alt)), build(&render_text(&raise_optional(&alt)))) {
+                (Ok(Ok(g)), Ok(Ok(r))) => (g, r),
+                _ => continue,
+            };
+            let explained = guard(|| {
+                use wax::Program;
+                g.is_match(p) && !r.is_match(p) && r.is_exhaustive().is_always()
+            });
+            if explained == Ok(true) {
+                return Some("F-EXH-OPTIONAL");
+            }
+        }
+        // the pattern as a whole (a combinator whose members only match p together)
         let raised: Vec<Expr> = exprs.iter().map(raise_optional).collect();
         if let Ok(Some((_, p2))) = build_pat(&raised) {
-            // ... and that is what "as if taken at least once" predicts: the raised pattern
-            // itself reports Always (otherwise the wrong verdict has another cause)
-            // (for a combinator or a top-level alternation: one of its raised alternatives, which is what
-            // a negation partitions by)
             let raised_always = raised.iter().flat_map(|e| crate::props::stacks::negation_alternatives(e)).any(|e| matches!(build(&render_text(&e)), Ok(Ok(g)) if guard(|| wax::Program::is_exhaustive(&g)).map_or(false, |w| w.is_always())));
             if !p2.is_match(p) && raised_always {
                 return Some("F-EXH-OPTIONAL");
